@@ -35,6 +35,7 @@ type absWorldT struct {
 	aus       map[uint64]*consensus.ApplyUpdate
 	curOldLeaves, curRevertLeaves uint64
 	applyTag, revertTag           byte
+	applyFrom, revertFrom         byte // the state an update starts from
 	proofUpdates                  int
 }
 
@@ -131,6 +132,7 @@ func stubApplyBlock(s consensus.State, b types.Block, bs consensus.V1BlockSupple
 		vapi.SetField(&au, "sces", sces)
 		absW.curOldLeaves = base
 		absW.applyTag = byte(b.Nonce)
+		absW.applyFrom = byte(absNonce(b.ParentID))
 	}
 	return next, au
 }
@@ -157,7 +159,7 @@ func absBlockDiffs(b types.Block, first uint64) ([]consensus.SiacoinElementDiff,
 			id := txn.SiacoinOutputID(txid, i)
 			pos[id] = len(sces)
 			sces = append(sces, consensus.SiacoinElementDiff{
-				SiacoinElement: types.SiacoinElement{ID: id, SiacoinOutput: sco, StateElement: types.StateElement{LeafIndex: next, MerkleProof: []types.Hash256{{byte(b.Nonce)}}}},
+				SiacoinElement: types.SiacoinElement{ID: id, SiacoinOutput: sco, StateElement: types.StateElement{LeafIndex: next, MerkleProof: []types.Hash256{{byte(b.Nonce), 0, 0, 1}}}},
 				Created:        true,
 			})
 			next++
@@ -184,11 +186,33 @@ func stubRevertBlock(s consensus.State, b types.Block, bs consensus.V1BlockSuppl
 	vapi.SetField(&ru, "sces", sces)
 	absW.curRevertLeaves = s.Elements.NumLeaves
 	absW.revertTag = byte(absNonce(s.Index.ID))
+	absW.revertFrom = byte(b.Nonce)
 	return ru
 }
 
 // UpdateElementProof: core's pre-conditions as panics; the post-condition is
-// modelled by tagging the proof with the state it now refers to.
+// modelled by tagging the proof with the state it now refers to. A proof is
+// only moved correctly by an update that starts from the state the proof
+// refers to: otherwise (an update was skipped or applied twice) the result is
+// marked as garbage for good, as a real Merkle proof would be, and
+// ValidateTransactionElements rejects it.
+//
+// proof[0] = {state tag, leaf, 0xEE if garbage, 1 if tagged by an update}
+func movedProof(e *types.StateElement, from, to byte) []types.Hash256 {
+	g := byte(0)
+	if len(e.MerkleProof) == 1 {
+		p := e.MerkleProof[0]
+		if p[2] == 0xEE || (p[3] == 1 && p[0] != from) {
+			g = 0xEE
+		}
+	}
+	return []types.Hash256{{to, byte(e.LeafIndex), g, 1}}
+}
+
+func proofIsGarbage(e *types.StateElement) bool {
+	return len(e.MerkleProof) == 1 && e.MerkleProof[0][2] == 0xEE
+}
+
 //
 //verif:replace (go.sia.tech/core/consensus.ApplyUpdate).UpdateElementProof
 func stubApplyUpdateProof(au consensus.ApplyUpdate, e *types.StateElement) {
@@ -200,7 +224,7 @@ func stubApplyUpdateProof(au consensus.ApplyUpdate, e *types.StateElement) {
 	if e.LeafIndex >= absW.curOldLeaves {
 		return // newly-added element
 	}
-	e.MerkleProof = []types.Hash256{{absW.applyTag, byte(e.LeafIndex)}}
+	e.MerkleProof = movedProof(e, absW.applyFrom, absW.applyTag)
 }
 
 //verif:replace (go.sia.tech/core/consensus.RevertUpdate).UpdateElementProof
@@ -212,7 +236,7 @@ func stubRevertUpdateProof(ru consensus.RevertUpdate, e *types.StateElement) {
 		panic("cannot update an element that is not present in the accumulator")
 	}
 	absW.proofUpdates++
-	e.MerkleProof = []types.Hash256{{absW.revertTag, byte(e.LeafIndex)}}
+	e.MerkleProof = movedProof(e, absW.revertFrom, absW.revertTag)
 }
 
 //verif:replace (go.sia.tech/core/consensus.State).SufficientlyHeavierThan
